@@ -27,7 +27,8 @@ COMPONENTS = {"real": ["amaranth.hdl._ir (build_netlist, emit_rhs/emit_assign/em
                        "clock/reset driver"]}
 EXPECTED_PROBES = ("sched", "coincide", "srst", "arst", "submodules", "fsm", "part", "array", "reset_inserter", "enable_inserter",
                    "domain_renamer", "memory_design", "library_design", "compared_bits", "undefined_bits_skipped", "internal_signals")
-OPTS = {"max_domains": 3, "max_modules": 4, "wrappers": True, "prints": False, "fsm": True, "max_stmts": 8, "depth": 2}
+OPTS = {"max_domains": 3, "max_modules": 4, "wrappers": True, "prints": False, "fsm": True, "max_stmts": 8, "depth": 2,
+        "clock_reads": True}
 CHUNK = 4
 
 
